@@ -850,6 +850,76 @@ pub fn backend<B: Backend>(opts: &Opts, rep: &mut Report) {
         }
     }
 
+    // (ii-b) *validly authenticated* blobs whose plaintext has an unusual length (a hostile party that
+    //        shares the wrapping key / password / knows the recipient key): built by the reference model
+    {
+        use crate::prims::Rc as PR;
+        use crate::refimpl as r;
+        let wk: [u8; 32] = key_bytes(&fx.local).try_into().unwrap();
+        let pke_pk = key_bytes(&fx.pke_public);
+        let lens: Vec<usize> = (0..=130).chain([191, 192, 193, 255, 256, 257, 511, 512, 513, 1023, 1024, 1025, 2048, 4095, 4096, 4097]).collect();
+        for &len in &lens {
+            idx += 1;
+            if !opts.mine_sys(idx) {
+                continue;
+            }
+            let mut rng = Rng::derive(opts.seed, &stream, idx);
+            let pt = rng.bytes(len);
+            for (t, kind) in [(Target::PieLocal, "local-wrap.pie"), (Target::PieSecret, "secret-wrap.pie")] {
+                let hdr = format!("k{}.{kind}.", B::VER);
+                let body = r::pie_wrap::<PR>(B::VER, &hdr, &wk, &rng.arr(), &pt);
+                run(rep, t, "valid-tag-odd-length", &format!("{hdr}{}", crate::b64::encode(&body)), &mut expensive_left);
+            }
+            for (t, kind) in [(Target::PwLocal, "local-pw"), (Target::PwSecret, "secret-pw")] {
+                let hdr = format!("k{}.{kind}.", B::VER);
+                let params = r::PwParams { iters_or_time: if B::VER % 2 == 1 { 2 } else { 1 }, mem_bytes: 8192, para: 1 };
+                let (sl, nl) = if B::VER % 2 == 1 { (32, 16) } else { (16, 24) };
+                if let Some(body) = r::pbkw_wrap::<PR>(B::VER, &hdr, b"password", &params, &rng.bytes(sl), &rng.bytes(nl), &pt) {
+                    run(rep, t, "valid-tag-odd-length", &format!("{hdr}{}", crate::b64::encode(&body)), &mut expensive_left);
+                }
+            }
+            // tokens with a valid tag for this key (any payload length)
+            if len % 4 == 0 {
+                let n0 = rng.bytes(B::LOCAL_NONCE);
+                let footer = rng.bytes(len % 7);
+                let body = r::local_seal::<PR>(B::VER, &wk, &n0, &pt, &footer, b"");
+                let tok = join_token(&format!("v{}.local.", B::VER), &body, &footer);
+                for t in [Target::TokLocalVec, Target::TokLocalJson, Target::TokLocalClaims, Target::TokLocalUnit] {
+                    run(rep, t, "valid-tag-odd-length", &tok, &mut expensive_left);
+                }
+            }
+        }
+        // sealed keys are fixed-size; a valid seal to the fixture's recipient with every key content class
+        for content in 0..4u8 {
+            idx += 1;
+            if !opts.mine_sys(idx) {
+                continue;
+            }
+            let mut rng = Rng::derive(opts.seed, &stream, idx);
+            let pdk: [u8; 32] = match content {
+                0 => [0; 32],
+                1 => [0xff; 32],
+                _ => rng.arr(),
+            };
+            let eph = match B::VER {
+                1 => {
+                    let mut x = rng.bytes(512);
+                    x[0] = (x[0] & 0x7f) | 0x40;
+                    x
+                }
+                3 => {
+                    let mut x = rng.bytes(48);
+                    x[0] &= 0x7f;
+                    x
+                }
+                _ => rng.bytes(32),
+            };
+            if let Some(body) = r::pke_seal::<PR>(B::VER, &pke_pk, &eph, &pdk) {
+                run(rep, Target::Sealed, "valid-tag", &format!("k{}.seal.{}", B::VER, crate::b64::encode(&body)), &mut expensive_left);
+            }
+        }
+    }
+
     // (iii) degenerate key encodings, through text form and through from_raw_bytes
     for (t, label, raw) in degenerate_keys::<B>() {
         idx += 1;
